@@ -290,9 +290,11 @@ pub fn generate(seed: u64, tier: Tier) -> Case {
                 // copy referring to its own module's items.
                 let host = *rng.pick(&closed.iter().copied().collect::<Vec<_>>());
                 let k = p.modules.len();
-                let mut path = vec![format!("twin{k}_of_{}", p.modules[host].path.last().unwrap())];
+                // Sorting before or after the original, at top level or nested.
+                let prefix = *rng.pick(&["A", "a", "twin", "z"]);
+                let mut path = vec![format!("{prefix}{k}_of_{}", p.modules[host].path.last().unwrap())];
                 if rng.chance(1, 2) {
-                    path.insert(0, format!("z{k}"));
+                    path.insert(0, format!("{}{k}", rng.pick(&["A", "z"])));
                 }
                 crate::project::add_twin_module(&mut p, host, path);
                 notes.push("edit:add_twin_of_closure_module".to_string());
